@@ -29,17 +29,19 @@ def _result(name, rule, cases, fn, limit=None):
 
 
 def role_cases():
-    matches = ['admin', 'Admin', 'ADMIN', '%(r)s', 'a%(r)sb', 'Ämter', '', '%(target.role.name)s', 'dm']
+    matches = ['admin', 'Admin', 'ADMIN', '%(r)s', 'a%(r)sb', 'Ämter', '', '%(target.role.name)s', 'dm', '%(r)s%(r)s',
+               '%(r)s_%(target.role.name)s', '%%(r)s', '%(r)s)s']
     from contracts.native import HUGE
     targets = [{}, {'r': 'admin'}, {'r': 'Dm'}, {'r': 1}, {'target.role.name': 'Admin', 'r': ''}, {'r': HUGE}]
     creds = [{}, {'roles': []}, {'roles': ['admin']}, {'roles': ['x', 'ADMIN']}, {'roles': ['aDmb']},
              {'roles': ['ämter']}, {'roles': ['']}, {'role': ['admin']}, {'roles': ['1']},
-             {'roles': ['projectadmin', 'admin_ro', 'compute:admin']}, {'roles': ['x', 'y']}]
+             {'roles': ['projectadmin', 'admin_ro', 'compute:admin']}, {'roles': ['x', 'y']},
+             {'roles': ['adminadmin', 'DmDm', '_admin', 'dm_Admin', '%(r)s', 'admin)s']}]
     return itertools.product(matches, targets, creds)
 
 
 def role_check(tier='quick', seed=0):
-    return _result('role_check small-scope', 'all (match, target, creds) over 9 matches x 6 targets (one holding an integer beyond the digit limit of str()) x 11 credential '
+    return _result('role_check small-scope', 'all (match, target, creds) over 13 matches (one and several placeholders, an escaped %) x 6 targets (one holding an integer beyond the digit limit of str()) x 12 credential '
                    'shapes; distinct = cases inside the precondition', role_cases(), role_case)
 
 
@@ -51,13 +53,18 @@ def generic_cases():
     creds = [{}, {'a': 'x'}, {'a': {'b': 'x'}}, {'a': [{'b': 'x'}, {'b': 'y'}]}, {'a': None}, {'a': 3},
              {'a': [[1]]}, {'a': {'b': [1, 'x']}}, {'a': {'b': {'c': 'x'}}}, {'a': ['x', 'y']}, {'a': True},
              {'a': {'b': None}}, {'a': [{'b': [{'c': 'x'}]}]}, {'a': HUGE}, {'a': {'b': [1, HUGE]}}, {'a': [HUGE, 'x']}]
-    kinds = kinds + ['0x' + 'f' * 4300, '-0x' + 'f' * 4300, '[0x' + 'f' * 4300 + ']']
-    return itertools.product(kinds, matches, targets, creds)
+    kinds = kinds + ['0x' + 'f' * 4300, '-0x' + 'f' * 4300, '[0x' + 'f' * 4300 + ']', '1.0', '0.0', 'False', '-0.0', '1']
+    matches = matches + ['1.0', '0.0', 'False', '-0.0', '0', '1']
+    creds = creds + [{'a': 1.0}, {'a': 0.0}, {'a': False}, {'a': -0.0}, {'a': 1}, {'a': 0}, {'a': [True, 1.0, 1]},
+                     {'a': {'b': 0.0}}]
+    cases = list(itertools.product(kinds, matches, targets, creds))
+    # the same cases again in reverse order: a verdict may not depend on what was evaluated earlier in the process
+    return cases + cases[::-1]
 
 
 def generic_check(tier='quick', seed=0):
-    return _result('generic_check small-scope', 'all (kind, match, target, creds) over 20 left sides (three of them integer literals beyond the digit limit of str()) x 11 right sides (identifier, dotted and punctuated placeholder keys, several placeholders, an escaped %) x '
-                   '7 targets x 16 credential shapes (every JSON type on the path, incl. integers beyond the digit limit)', generic_cases(), generic_case)
+    return _result('generic_check small-scope', 'all (kind, match, target, creds) over 25 left sides (three of them integer literals beyond the digit limit of str(); float and boolean literals) x 17 right sides (identifier, dotted and punctuated placeholder keys, several placeholders, an escaped %) x '
+                   '7 targets x 24 credential shapes (every JSON type on the path, incl. integers beyond the digit limit, floats and booleans that compare equal), every case evaluated twice in opposite orders', generic_cases(), generic_case)
 
 
 def _search(cases, fn):
